@@ -182,6 +182,71 @@ type cmC08 struct {
 	bidsAccepted, bidsRejected        int
 	rejectedThoughOracleAccepts       int
 	updatesWithLease, updatesRejected int
+	// independent model of what each auditor has signed for each provider, built from the
+	// history of successful sign / delete messages (not read back from the audit store)
+	att map[string]map[string]string
+}
+
+func c08Pair(auditor, owner string) string { return auditor + "|" + owner }
+
+// signed returns the modelled attestation of auditor for owner as an attribute list.
+func (o *cmC08) signed(auditor, owner string) akashtypes.Attributes {
+	var out akashtypes.Attributes
+	kv := o.att[c08Pair(auditor, owner)]
+	var keys []string
+	for k := range kv {
+		keys = append(keys, k)
+	}
+	for _, k := range sortedStrings(keys) {
+		out = append(out, akashtypes.Attribute{Key: k, Value: kv[k]})
+	}
+	return out
+}
+
+func (o *cmC08) trackAttestations(m *chainMachine, tx *cmTx) {
+	if o.att == nil {
+		o.att = map[string]map[string]string{}
+	}
+	var auditor, owner string
+	switch msg := tx.msg.(type) {
+	case *atypes.MsgSignProviderAttributes:
+		auditor, owner = msg.Auditor, msg.Owner
+		if tx.ok {
+			kv := o.att[c08Pair(auditor, owner)]
+			if kv == nil {
+				kv = map[string]string{}
+				o.att[c08Pair(auditor, owner)] = kv
+			}
+			for _, a := range msg.Attributes {
+				kv[a.Key] = a.Value
+			}
+		}
+	case *atypes.MsgDeleteProviderAttributes:
+		auditor, owner = msg.Auditor, msg.Owner
+		if tx.ok {
+			if msg.Keys == nil {
+				delete(o.att, c08Pair(auditor, owner))
+			} else {
+				for _, k := range msg.Keys {
+					delete(o.att[c08Pair(auditor, owner)], k)
+				}
+			}
+		}
+	default:
+		return
+	}
+	// whatever the chain now holds as signed by this auditor must have been signed and not withdrawn
+	kv := o.att[c08Pair(auditor, owner)]
+	for _, a := range tx.post.audits {
+		if a.Owner != owner || a.Auditor != auditor {
+			continue
+		}
+		for _, x := range a.Attributes {
+			if v, ok := kv[x.Key]; !ok || v != x.Value {
+				m.fatalf("c08-stale-attestation", "after %s the chain holds %s=%s as signed by %s for %s, but by the history of sign/delete messages the auditor's attestation is %s: a bid relying on it would be admitted", tx.label, x.Key, x.Value, m.byAddr[auditor].name, m.byAddr[owner].name, cmAttrStr(o.signed(auditor, owner)))
+			}
+		}
+	}
 }
 
 const c08Rule = "chain-machine history containing a bid attempt against an order with auditor (all-of/any-of) requirements, or a provider update attempted while that provider holds an active lease"
@@ -229,9 +294,10 @@ func (o *cmC08) admissible(m *chainMachine, pre *cmSnap, msg *mtypes.MsgCreateBi
 	}
 	req := ord.Spec.Requirements
 	attest := func(auditor string) (akashtypes.Attributes, bool) {
+		// existence of a (possibly empty) record is read from the chain, its content from the model
 		for _, a := range pre.audits {
 			if a.Owner == msg.Provider && a.Auditor == auditor {
-				return a.Attributes, true
+				return o.signed(auditor, msg.Provider), true
 			}
 		}
 		return nil, false
@@ -263,6 +329,7 @@ func (o *cmC08) admissible(m *chainMachine, pre *cmSnap, msg *mtypes.MsgCreateBi
 }
 
 func (o *cmC08) afterTx(m *chainMachine, tx *cmTx) {
+	o.trackAttestations(m, tx)
 	switch msg := tx.msg.(type) {
 	case *mtypes.MsgCreateBid:
 		if tx.twin {
@@ -408,6 +475,26 @@ func (o *cmC02) check(m *chainMachine, pre, post *cmSnap, what string, tx *cmTx)
 		// (ii) never more than rate x blocks open
 		if earned.GT(full) {
 			m.fatalf("c02-overcharge", "after %s: payment %s earned %s > rate %s x %d blocks open (created h%d, last h%d)", what, k, earned, p.Rate.Amount, last-created, created, last)
+		}
+		// the same two clauses measured against the LEASE (market store), not the payment record:
+		// a payee never receives more than price x blocks the lease was open, and accrues exactly
+		// that while the lease is open and the account funded
+		if lid, isLease := mtypes.LeaseIDFromEscrowAccount(p.AccountID, p.PaymentID); isLease && p.AccountID.Scope == dtypes.EscrowScope {
+			if l, found := post.lease(lid); found {
+				lastL, known := a.SettledAt, true
+				if l.State != mtypes.LeaseActive {
+					lastL, known = m.leaseEnded[k], m.leaseEnded[k] > 0
+				}
+				if known {
+					fullL := p.Rate.Amount.MulRaw(lastL - created)
+					if earned.GT(fullL) {
+						m.fatalf("c02-overcharge-vs-lease", "after %s: payee of lease %s earned %s > price %s x %d blocks the lease was open (created h%d, lease %s, last h%d)", what, k, earned, p.Rate.Amount, lastL-created, created, l.State, lastL)
+					}
+					if l.State == mtypes.LeaseActive && !o.overdrawnAcc[cmAccKey(p.AccountID)] && !earned.Equal(fullL) {
+						m.fatalf("c02-inexact-vs-lease", "after %s: lease %s is active and funded, its provider earned %s but price %s x %d elapsed blocks = %s (payment %s)", what, k, earned, p.Rate.Amount, lastL-created, fullL, p.State)
+					}
+				}
+			}
 		}
 		// (i) exact while the account has never been overdrawn
 		if !o.overdrawnAcc[cmAccKey(p.AccountID)] && !earned.Equal(full) {
